@@ -44,7 +44,7 @@ func bankers(x, p *Term) *Term {
 }
 
 func (ex *Exec) mathBuiltin(st *State, short, method string, sig *types.Signature, recv Val, args []Val, call *ssa.Call) ([]Result, bool) {
-	one := func(v Val) ([]Result, bool) { return []Result{{st, v, nil}}, true }
+	one := func(v Val) ([]Result, bool) { return []Result{{st: st, ret: v}}, true }
 	T := func(v Val) *Term { return v.(*Term) }
 	isDec := strings.Contains(short, "(math.LegacyDec).")
 	isInt := strings.Contains(short, "(math.Int).")
@@ -342,7 +342,7 @@ func (ex *Exec) keeperCall(st *State, name, short, method string, sig *types.Sig
 	default:
 		ret = &TupleV{Elems: rets}
 	}
-	return []Result{{st, ret, nil}}, true
+	return []Result{{st: st, ret: ret}}, true
 }
 
 func (ex *Exec) defaultExternal(st *State, name string, sig *types.Signature, recv Val, args []Val) Val {
@@ -419,7 +419,7 @@ func (ex *Exec) repoBuiltin(fr *Frame, fn *ssa.Function, args []Val, st *State, 
 	switch fn.Name() {
 	case "Logger":
 		if fn.Signature.Results().Len() == 1 && strings.Contains(fn.Signature.Results().At(0).Type().String(), "log.Logger") {
-			return []Result{{st, &OpaqueV{"logger"}, nil}}, true
+			return []Result{{st: st, ret: &OpaqueV{"logger"}}}, true
 		}
 	}
 	return nil, false
